@@ -164,8 +164,14 @@ func validateAuthCodeGrantRequest(
 	opts := bindindValidationsOptions{}
 	opts.tlsIsRequired = session.ClientCertThumbprint != ""
 	opts.tlsCertThumbprint = session.ClientCertThumbprint
-	opts.dpopIsRequired = session.JWKThumbprint != ""
-	opts.dpop.JWKThumbprint = session.JWKThumbprint
+	// Default to the JWK thumbprint stored in the session (e.g., from a previous PAR).
+	// If not available, fallback to the thumbprint provided via the dpop_jkt parameter.
+	jkt := session.JWKThumbprint
+	if jkt == "" {
+		jkt = session.DPoPJKT
+	}
+	opts.dpopIsRequired = jkt != ""
+	opts.dpop.JWKThumbprint = jkt
 	if err := ValidateBinding(ctx, c, &opts); err != nil {
 		return err
 	}
